@@ -30,3 +30,145 @@ Theorem C20_decode_empty_succeeds : forall S p f n fs kp ia r rcx out,
   gen_decode S p (Datatypes.S f) (TyRef n) (mkS (x00 :: r) rcx) = Ok (GStruct out [], mkS r rcx).
 Proof. exact decode_empty_succeeds. Qed.
 Print Assumptions C20_decode_empty_succeeds.
+
+(* ================= the MEANING of the defaults: literal level (gen-D) =================
+   Lit.v models Context::lit_into_ty / lit_as_rvalue / ident_into_ty / def_lit / default_val of pilota-build (dispatching on
+   the arm tables REGENERATED from context.rs), LitSpec.v gives the meaning of an IDL literal at a Thrift type from the IDL
+   semantics, LitClass.v the decidable panic classes.  [parse_f64] (decimal text -> nearest double) is a parameter shared by
+   model and specification; everything else is computed over Z.  Lemmas: Proofs/LitNum.v, LitP.v, LitTopP.v. *)
+From PVGen Require Import Lit LitSpec LitClass Proofs.LitNum Proofs.LitP Proofs.LitTopP.
+
+(* the arm lists of lit_into_ty / lit_as_rvalue / ident_into_ty regenerated from the Rust source are, arm for arm and in
+   source order, the lists the model was written against (a removed / merged / added / reordered arm breaks this) *)
+Theorem C20_arm_tables :
+  lit_into_ty_arms = model_lit_into_ty_arms /\
+  lit_as_rvalue_arms = [ ([(LPMap, CPLazyStaticRef)], FFalse); ([(LPMap, CPMap)], FFalse); ([(LPMap, CPBTreeMap)], FFalse);
+                         ([(LPList, CPLazyStaticRef)], FFalse); ([(LPList, CPMap)], FFalse); ([(LPList, CPBTreeMap)], FFalse) ] /\
+  ident_into_ty_arms = [ ([(CPStr, CPFastStr)], FTrue);
+                         ([(CPAdtEnum, CPI64); (CPAdtEnum, CPI32); (CPAdtEnum, CPI16); (CPAdtEnum, CPI8)], FTrue) ] /\
+  int_float_casts = [(CPF32, CPF32); (CPF64, CPF64)] /\ int_bool_test = (true, 0).
+Proof.
+  exact (conj lit_into_ty_arms_pinned (conj lit_as_rvalue_arms_pinned (conj ident_into_ty_arms_pinned
+           (conj (proj1 lit_scalars_pinned) (proj1 (proj2 lit_scalars_pinned)))))).
+Qed.
+Print Assumptions C20_arm_tables.
+
+(* every literal (unbounded nesting: induction over the literal), every type, every schema on whose defaults the generator
+   meets no panic class: a well-typed literal outside the classes is lowered to an expression denoting exactly the value the
+   IDL gives it (plus the const flag) *)
+Theorem C20_literal_meaning : forall parse_f64 S,
+  class_free_schema S = true -> forall t l,
+  well_typed_lit parse_f64 S (erase t) l = true ->
+  pclass_top S l (item_cty t) = None ->
+  exists v c, default_val_lit parse_f64 S t l = LOk (v, c) /\ lit_value_top parse_f64 S (erase t) l = Some v.
+Proof. exact literal_meaning. Qed.
+Print Assumptions C20_literal_meaning.
+
+(* FULL statement wanted: on every well-typed literal the lowering returns a value.  It is REFUTED by the four witnesses
+   below; what holds: the only failures (panic or otherwise) on well-typed literals are inside the decidable classes.
+   _partial also because (1) the hypothesis class_free_schema is about the whole schema (the generator lowers every default
+   of a crate; a panic anywhere leaves no emitted code), (2) an ENUM-typed const used at an integer field
+   (`(K.inner() as i32)`) is modelled but outside well_typed_lit's const rule (types must agree up to typedefs), and
+   (3) enum-typed values nested in const containers are not covered (container consts can never be referenced). *)
+Theorem C20_lowering_total_partial : forall parse_f64 S,
+  class_free_schema S = true -> forall t l,
+  well_typed_lit parse_f64 S (erase t) l = true ->
+  match default_val_lit parse_f64 S t l with
+  | LOk _ => True
+  | LErr _ | LPanic _ => pclass_top S l (item_cty t) <> None
+  end.
+Proof. exact lowering_total. Qed.
+Print Assumptions C20_lowering_total_partial.
+
+(* finding F-14g (class container-literal-inside-container-literal): a map literal below the top of a default *)
+Theorem C20_nested_map_literal_refuted : exists parse_f64 S t l,
+  well_typed_lit parse_f64 S (erase t) l = true /\ default_val_lit parse_f64 S t l = LPanic PUnexpectedLiteral /\
+  pclass_top S l (item_cty t) = Some PCNestedMap.
+Proof.
+  exists pf0, W_nested_map, (RVec (RMap RI8 RFastStr)), (LList [LMap [(LInt 1, LString [x78])]]).
+  exact (conj (proj1 nested_map_refuted) (conj (proj1 (proj2 nested_map_refuted)) (proj1 (proj2 (proj2 nested_map_refuted))))).
+Qed.
+Print Assumptions C20_nested_map_literal_refuted.
+
+(* finding F-14l (class enum-default-through-typedef): an enum member at a typedef of the enum *)
+Theorem C20_enum_through_typedef_refuted : exists parse_f64 S t l,
+  well_typed_lit parse_f64 S (erase t) l = true /\ default_val_lit parse_f64 S t l = LPanic PInvalidConvert /\
+  pclass_top S l (item_cty t) = Some PCPathConvert.
+Proof.
+  exists pf0, W_enum_typedef, (RPath 1), (LMember 0 1).
+  exact (conj (proj1 enum_typedef_refuted) (conj (proj1 (proj2 enum_typedef_refuted)) (proj1 (proj2 (proj2 enum_typedef_refuted))))).
+Qed.
+Print Assumptions C20_enum_through_typedef_refuted.
+
+(* finding F-14i (class const-of-set-type): the const item itself cannot be generated, with or without elements *)
+Theorem C20_const_of_set_refuted : exists parse_f64 S,
+  const_value parse_f64 S 0 = LPanic PAssertEmpty /\ const_value parse_f64 S 1 = LPanic PInvalidMapType /\
+  well_typed_lit parse_f64 S (erase (RSet RI32)) (LConst 0) = true /\
+  default_val_lit parse_f64 S (RSet RI32) (LConst 0) = LPanic PInvalidConvert.
+Proof.
+  exists pf0, W_const_set.
+  exact (conj (proj1 const_set_refuted) (conj (proj1 (proj2 const_set_refuted))
+          (conj (proj1 (proj2 (proj2 const_set_refuted))) (proj1 (proj2 (proj2 (proj2 const_set_refuted))))))).
+Qed.
+Print Assumptions C20_const_of_set_refuted.
+
+(* the pairs without an arm (FINDINGS.md, "Generator panics met while writing the corpus"): an integer at a set<double>
+   element *)
+Theorem C20_no_arm_refuted : exists parse_f64 S t l,
+  well_typed_lit parse_f64 S (erase t) l = true /\ default_val_lit parse_f64 S t l = LPanic PUnexpectedLiteral /\
+  pclass_top S l (item_cty t) = Some PCNoArm.
+Proof.
+  exists pf0, (mkLS [] []), (RSet ROrderedF64), (LList [LInt 1]).
+  exact (conj (proj1 no_arm_refuted) (conj (proj1 (proj2 no_arm_refuted)) (proj1 (proj2 (proj2 no_arm_refuted))))).
+Qed.
+Print Assumptions C20_no_arm_refuted.
+
+(* Default::default(): the model of ImplDefaultPlugin (Defaults.default_of) over the schema whose field defaults are the
+   LOWERED literals (Lit.proj) holds, field for field, the value of the IDL default (present also when the field is
+   optional), else absence / the type's empty value: exactly what the IDL alone determines (LitSpec.expected_default).
+   Hypotheses: every field default of the schema is well-typed, and none is in a panic class. *)
+Theorem C20_default_is_idl : forall parse_f64 S,
+  class_free_schema S = true -> lits_typed parse_f64 S = true -> forall n,
+  default_of (proj parse_f64 S) (TyRef n) = expected_default parse_f64 S n.
+Proof. exact default_is_idl. Qed.
+Print Assumptions C20_default_is_idl.
+
+(* an integer literal at a double: the arm's value, for every i and every schema ... *)
+Theorem C20_int_at_double : forall parse_f64 S i,
+  default_val_lit parse_f64 S RF64 (LInt i) = LOk (GDouble (f64_enc (z2f 53 i)), true).
+Proof. exact int_at_double. Qed.
+Print Assumptions C20_int_at_double.
+
+(* ... is the double NEAREST to i: no m * 2^e with |m| < 2^53, e >= -1074 (= no finite double, subnormals included) is
+   closer to i than z2f 53 i (distances scaled by 2^1074: integers only, no real numbers) ... *)
+Theorem C20_int_double_nearest : forall i m e, Z.abs m < 2 ^ 53 -> -1074 <= e ->
+  Z.abs (i - z2f 53 i) * 2 ^ 1074 <= Z.abs (i * 2 ^ 1074 - m * 2 ^ (e + 1074)).
+Proof. exact z2f53_nearest. Qed.
+Print Assumptions C20_int_double_nearest.
+
+(* ... it is itself such a number, with a 53-bit significand ... *)
+Theorem C20_int_double_representable : forall n, 0 <= n ->
+  exists m e, fst (rne 53 n) * 2 ^ snd (rne 53 n) = m * 2 ^ e /\ 0 <= m < 2 ^ 53 /\ 0 <= e.
+Proof. exact rne53_is_double. Qed.
+Print Assumptions C20_int_double_representable.
+
+(* ... ties go to the even significand ... *)
+Theorem C20_int_double_ties_even : forall n m E, 0 <= n -> 0 <= m < 2 ^ 53 -> 0 <= E ->
+  Z.abs (n - fst (rne 53 n) * 2 ^ snd (rne 53 n)) * 2 ^ 1074 = Z.abs (n * 2 ^ 1074 - m * 2 ^ E) ->
+  m * 2 ^ E <> fst (rne 53 n) * 2 ^ snd (rne 53 n) * 2 ^ 1074 ->
+  Z.even (fst (rne 53 n)) = true.
+Proof. exact rne53_tie_even_mag. Qed.
+Print Assumptions C20_int_double_ties_even.
+
+(* ... and f64_enc is the binary64 interchange layout (sign, biased exponent, 52 fraction bits) of that number *)
+Theorem C20_double_layout : forall v, v <> 0 -> Z.abs v < 2 ^ 1024 ->
+  exists s e f, f64_enc v = s * 2 ^ 63 + e * 2 ^ 52 + f /\ (s = 0 \/ s = 1) /\ (s = 1 <-> v < 0) /\
+                0 < e < 2047 /\ 0 <= f < 2 ^ 52 /\
+                ((Z.abs v * 2 ^ 52) mod 2 ^ (e - 1023) = 0 -> (2 ^ 52 + f) * 2 ^ (e - 1023) = Z.abs v * 2 ^ 52).
+Proof. exact f64_enc_layout. Qed.
+Print Assumptions C20_double_layout.
+
+(* the specification's "nearest double by its two neighbours" is the same function as the model's closed form *)
+Theorem C20_int_double_spec_agrees : forall i, int_to_double i = f64_enc (z2f 53 i).
+Proof. exact int_to_double_model. Qed.
+Print Assumptions C20_int_double_spec_agrees.
